@@ -724,8 +724,19 @@ func reifyPrimitive(
 ) (reflect.Value, Error) {
 	// zero initialize value if val==nil
 	if isNil(val) {
-		v := pointerize(t, baseType, reflect.Zero(baseType))
-		return tryInitDefaults(v), nil
+		v := tryInitDefaults(pointerize(t, baseType, reflect.Zero(baseType)))
+		if val != nil && hasInitDefaults(baseType) {
+			// values set by InitDefaults must validate like values read from
+			// the configuration
+			dflt := chaseValuePointers(v)
+			if err := runValidators(dflt.Interface(), opts.validators); err != nil {
+				return reflect.Value{}, raiseValidation(val.Context(), val.meta(), "", err)
+			}
+			if err := tryValidate(dflt); err != nil {
+				return reflect.Value{}, raiseValidation(val.Context(), val.meta(), "", err)
+			}
+		}
+		return v, nil
 	}
 
 	var v reflect.Value
